@@ -83,6 +83,13 @@ func (p *Program) Cmd(t string, i int) string {
 	return StdCmd(t, i)
 }
 
+// bigText is what the marker {BIG} stands for in variable values, file contents and exec arguments of a case:
+// a run of 70000 characters (longer than the 64 KiB default token limit of bufio.Scanner, a pipe buffer, ...).
+// Cases carry the marker, not the text.
+var bigText = strings.Repeat("x", 70000)
+
+func expandBig(s string) string { return strings.ReplaceAll(s, "{BIG}", bigText) }
+
 // Render writes the program as spokfile text (LF only) in one of a few layouts.
 func (p *Program) Render() string {
 	var b strings.Builder
@@ -94,11 +101,11 @@ func (p *Program) Render() string {
 		switch v.Kind {
 		case "str":
 			// the value is exactly the text between the quotes: no escaping (values contain no double quote)
-			fmt.Fprintf(&b, "%s := \"%s\"\n", v.Name, v.Args[0])
+			fmt.Fprintf(&b, "%s := \"%s\"\n", v.Name, expandBig(v.Args[0]))
 		default:
 			q := make([]string, len(v.Args))
 			for i, a := range v.Args {
-				q[i] = `"` + a + `"`
+				q[i] = `"` + expandBig(a) + `"`
 			}
 			fmt.Fprintf(&b, "%s := %s(%s)\n", v.Name, v.Kind, strings.Join(q, ", "))
 		}
